@@ -900,7 +900,7 @@ def gen_case(rng, focus, nops=None):
         if not gen.backend_accepts(b, kk, km):
             continue
         safe = rng.random() < 0.4
-        if focus == 'C16' and safe and rng.random() < 0.4:
+        if safe and rng.random() < (0.4 if focus == 'C16' else (0.12 if focus in ('C01', 'C05', 'C06', 'C15') else 0)):
             km = {'cls': 'keymap', 'type': None, 'flat': True, 'typed': rng.random() < 0.3,
                   'sentinel': gen.sig_has_varargs(sig) or rng.random() < 0.3}
             kk = 'raw'
@@ -972,7 +972,7 @@ def gen_case(rng, focus, nops=None):
             t = _typed_twin(rng, c)
             if t is not None and repr(t) not in [repr(x) for x in pool]:
                 pool.insert(rng.randrange(len(pool) + 1), t)
-    if safe and b['kind'] in ('dict', 'null', 'dict_archive') and rng.random() < (0.7 if focus == 'C16' else 0.25) \
+    if safe and b['kind'] in ('dict', 'null', 'dict_archive') and rng.random() < (0.7 if (focus == 'C16' or kk == 'raw') else 0.25) \
             and focus not in ('C18', 'C20'):
         # un-keyable arguments: the safe decorators must degrade to plain evaluation
         hostile = [[1, 2], {'a': 1}, {'__s__': [1, 2]}, {'__h__': 'badrepr'}, {'__h__': 'badhash'},
@@ -1091,7 +1091,7 @@ def gen_mgmt(rng, focus, cfg, pool, has_arch):
             part = rng.sample(pool, max(1, int(len(pool) * rng.choice([0.4, 0.6, 1.0]))))
             choices += [['load'], ['load'], ['archfill', [[enc(c[0]), enc(c[1])] for c in part]],
                         ['swaparchive']]
-    if not has_arch and focus in ('C01', 'C05', 'C15') and not cfg['backend'].get('direct'):
+    if not has_arch and focus in ('C01', 'C02', 'C05', 'C07', 'C15') and not cfg['backend'].get('direct'):
         choices += [['swaparchive']]     # an archive attached after decoration
     if focus in ('C05', 'C01'):
         choices += [['overfill', [[enc(c[0]), enc(c[1])] for c in pool]]]
@@ -1296,6 +1296,9 @@ def gen_case_c20(rng):
            'keymap': km, 'backend': b}
     if rng.random() < 0.3:
         cfg['tol'] = rng.choice([0, 1]); cfg['deep'] = rng.random() < 0.5
+    names = [n for kd, n in gen.sig_names(sig) if kd == 'pos']
+    if names and rng.random() < 0.25 and gen.backend_accepts(b, gen.key_kind(km), dict(km, sentinel=True)):
+        cfg['ignore'] = enc([rng.choice(names)])    # klepto's NULL marker object sits inside raw keys
     if algo not in BOUNDED:
         cfg['maxsize'] = 0 if algo == 'no' else None
     universe = [u for u in gen.UNIVERSE if not (b['kind'] == 'dir' and u in ('a_b', '1'))]
